@@ -554,20 +554,30 @@ class TreeTyper:
         return base + (best or 0)
 
     def max_count(self, root: str, target: str, _seen=None) -> int:
-        """Maximum number of nodes named target in a subtree rooted at root (999 = unbounded)."""
+        """Maximum number of nodes named target in a subtree rooted at root (999 = unbounded).
+        In an unbounded rule a child symbol counts as repeatable when its multiplicity within the enumerated
+        words reaches 3 (a symbol under * / + fills the length bound; a symbol outside it never does)."""
         _seen = _seen or frozenset()
         if root in _seen:
             return 999
         base = 1 if root == target else 0
         best = 0
-        for w in self.gf.rule_words(root):
+        words = self.gf.rule_words(root)
+        unb = self.gf.unbounded(root)
+        for w in words:
             c = 0
-            for k, n in w:
-                if k == "T":
-                    c += self.max_count(n, target, _seen | {root})
+            for sym in set(w):
+                k, n = sym
+                if k != "T":
+                    continue
+                sub = self.max_count(n, target, _seen | {root})
+                if sub == 0:
+                    continue
+                mult = w.count(sym)
+                if sub >= 999 or (unb and mult >= 3):
+                    return 999
+                c += sub * mult
             best = max(best, c)
-        if self.gf.unbounded(root) and any(k == "T" and (n == target or self.max_count(n, target, _seen | {root}) > 0) for w in self.gf.rule_words(root) for k, n in w):
-            return 999
         return min(999, base + best)
 
     def _call_user(self, r, e: ast.Call, env, facts) -> V:
@@ -653,6 +663,30 @@ class TreeTyper:
             vv = union(vals)
         return V("dict", items=(ks, vv), path="dict")
 
+    def _static_bool(self, e, env):
+        """True / False when the test is decided by the static type of a tree (`x.data == 'rule'`), else None."""
+        if isinstance(e, ast.UnaryOp) and isinstance(e.op, ast.Not):
+            v = self._static_bool(e.operand, env)
+            return None if v is None else (not v)
+        if isinstance(e, ast.BoolOp):
+            vs = [self._static_bool(x, env) for x in e.values]
+            if isinstance(e.op, ast.And):
+                return False if any(v is False for v in vs) else (True if all(v is True for v in vs) else None)
+            return True if any(v is True for v in vs) else (False if all(v is False for v in vs) else None)
+        if isinstance(e, ast.Compare) and len(e.ops) == 1 and isinstance(e.ops[0], (ast.Eq, ast.NotEq)):
+            sides = [e.left, e.comparators[0]]
+            attr = [x for x in sides if isinstance(x, ast.Attribute) and x.attr == "data"]
+            lit = [x for x in sides if isinstance(x, ast.Constant) and isinstance(x.value, str)]
+            if len(attr) == 1 and len(lit) == 1:
+                try:
+                    v = self.ev(attr[0].value, env)
+                except AttrErr:
+                    return None
+                if v.kind == "tree" and len(v.names) == 1:
+                    same = next(iter(v.names)) == lit[0].value
+                    return same if isinstance(e.ops[0], ast.Eq) else (not same)
+        return None
+
     def eval_function(self, ff, flow, benv: dict, outer_env: dict | None = None) -> V:
         """Union of the function's return values for the given parameter values.
         A union-valued parameter is case-split so that the try/except
@@ -671,6 +705,16 @@ class TreeTyper:
         rets = [n for n in walk_no_nested(ff.node) if isinstance(n, ast.Return)]
         env = dict(outer_env or {})
         env.update(benv)
+        # a `raise` whose guards are all statically true for a well-typed argument fires on every valid input
+        for rz in [n for n in walk_no_nested(ff.node) if isinstance(n, ast.Raise)]:
+            conds = path_conditions(ff.node, rz)
+            if any(k == "exc" for k, _, _ in conds):
+                continue
+            vals = [self._static_bool(flow.expand(x), env) == pol for k, x, pol in conds if k == "if"]
+            known = [self._static_bool(flow.expand(x), env) for k, x, pol in conds if k == "if"]
+            if conds and all(v is not None for v in known) and all(vals):
+                self.err(f"{ff.qualname}: `{txt(rz)[:60]}` is raised for every well-formed {'/'.join(sorted(n for v in benv.values() for n in v.names)) or 'input'} "
+                         f"(guard `{'; '.join(txt(x)[:50] for k, x, p in conds if k == 'if')}` always holds)")
         outs = []
         attr_failed_trys: set[int] = set()
         # order: returns in try bodies first, handlers after
